@@ -1,0 +1,14 @@
+//go:build verif
+
+// Contracts for package xreq (comment-only; read by /verif/govc).
+
+package xreq
+
+//@ struct pipe
+//@   immutable: p s closeQ
+//@
+//@ struct socket
+//@   lock Mutex level 20
+//@   guarded_by Mutex: closed recvQ sendQ sizeQ recvExpire sendExpire sendQLen recvQLen bestEffort
+//@   immutable: closeQ
+//@
